@@ -165,6 +165,16 @@ func initSymIntrinsics() {
 			m.opts.CheckDeadlock = m.asTerm(a[0]).C != 0
 			return nil
 		},
+		// Replace(name, fn): calls to the named function of the code under test run fn instead
+		// (used for the one package-level function that dials: the harness supplies the transport)
+		"Replace": func(m *Machine, c *frame, fn *ssa.Function, a []value) value {
+			iv, ok := a[1].(ifaceV)
+			if !ok {
+				m.abort("sym.Replace: bad function value")
+			}
+			m.overrides[strArg(m, a[0])] = iv.v
+			return nil
+		},
 		"RacyScope": func(m *Machine, c *frame, fn *ssa.Function, a []value) value {
 			m.racyScope = strArg(m, a[0])
 			return nil
